@@ -199,7 +199,7 @@ func (c *Ctx) checkScrubberWrite() {
 	c.checkGuardRows(rule, rows, p.FnsIn("common/safelog"))
 	isNL := func(v ssa.Value) bool { k, ok := constInt(v); return ok && k == '\n' }
 	var idx *ssa.Call
-	for _, ci := range callsTo(w, "bytes.LastIndexByte") {
+	for _, ci := range callsTo(w, "bytes.LastIndexByte", "bytes.IndexByte") {
 		if isFieldLoadOf(ci.Common().Args[0], bufF) && isNL(ci.Common().Args[1]) {
 			idx, _ = ci.(*ssa.Call)
 		}
